@@ -41,8 +41,11 @@ def Cmd.name : Cmd → String
 /-- The control state of all backends as seen from all contexts.
 `var c b` is a Python `set[Command]` represented by a list (only membership is ever asked). -/
 structure World where
-  /-- `ControlMixin.enable_by_default` (class attribute; `True` everywhere in cashews) -/
-  enableByDefault : Bool
+  /-- backend ↦ `enable_by_default`.  A class attribute of `ControlMixin` that is `True` and never
+  assigned anywhere in cashews; it is a parameter here (per backend object, since an instance
+  attribute can shadow it) because the locality of the control state depends on it:
+  see `disable_is_context_local` and `default_disabled_state_leaks` in `Props/C17.lean`. -/
+  enableByDefault : Nat → Bool
   /-- backend ↦ `self._control_set`: a plain attribute, hence shared by all contexts -/
   controlSet : Nat → Bool
   /-- context ↦ backend ↦ value of the ContextVar `self.__disable` in that context
@@ -50,7 +53,7 @@ structure World where
   var : Nat → Nat → List Cmd
 
 def World.init (enableByDefault : Bool := true) : World :=
-  ⟨enableByDefault, fun _ => false, fun _ _ => []⟩
+  ⟨fun _ => enableByDefault, fun _ => false, fun _ _ => []⟩
 
 /-- ```
 def is_disable(self, *cmds):
@@ -65,7 +68,7 @@ def isDisable (w : World) (c b : Nat) (cmds : List Cmd) : Bool :=
   if w.controlSet b then
     let d := w.var c b
     if cmds.isEmpty && !d.isEmpty then true else cmds.any fun x => d.contains x
-  else !w.enableByDefault
+  else !w.enableByDefault b
 
 /-- ```
 def is_full_disable(self):
@@ -75,7 +78,7 @@ def is_full_disable(self):
 (`_disable` only ever holds members of `Command`, so `== ALL` is `ALL ⊆ _disable`.) -/
 def isFullDisable (w : World) (c b : Nat) : Bool :=
   if w.controlSet b then Cmd.all.all fun x => (w.var c b).contains x
-  else !w.enableByDefault
+  else !w.enableByDefault b
 
 /-- `_set_disable(value)`: `self.__disable.set(value)` changes the variable in the *current*
 context only; `self._control_set = True` is seen everywhere -/
@@ -508,5 +511,232 @@ def AllStartsFull (t : Table) : World → List CEv → Prop
   | w, .start _ ctx _ :: r => facadeFullDisable t w ctx = true ∧ AllStartsFull t w r
   | w, .finish _ :: r => AllStartsFull t w r
   | w, .ctl op :: r => AllStartsFull t (ctlStep t w op).1 r
+
+/-! ### The default middleware stack
+
+Every backend command of the facade runs through `self._default_middlewares`
+(cashews/wrapper/wrapper.py `_with_middlewares_for_backend`):
+```
+call = getattr(backend, cmd.value)
+for middleware in middlewares:                       # [*default_middlewares, *setup(middlewares=...)]
+    call = partial(middleware, call, cmd, backend)
+```
+so the LAST middleware of the list is the OUTERMOST wrapper.  A disabled command must not reach the
+backend in any form — not as the command, not as the `delete` that `invalidate_further()` turns a
+read into, not as the `init()` of the auto-init middleware — hence the position of the disable
+check in that list matters.  (Middlewares handed to `setup(middlewares=...)` wrap the default stack
+from outside; they are the user's code and are not modelled.) -/
+
+/-- the middlewares every `Cache()` installs itself -/
+inductive Mw where
+  /-- `create_auto_init()` (cashews/wrapper/auto_init.py):
+  `if not backend.is_init: await backend.init()` and then the inner call -/
+  | autoInit
+  /-- `validation._invalidate_middleware`: inside `invalidate_further()` a retrieve command is
+  replaced by the deletion of what it would have read -/
+  | invalidate
+  /-- `CallbackWrapper.callbacks`: calls the inner chain, then the user's callbacks (no backend call) -/
+  | callbacks
+  /-- `_is_disable_middleware` -/
+  | disable
+  deriving DecidableEq, Repr
+
+/-- `self._default_middlewares` of a `Cache()`: `Wrapper.__init__` creates
+`[create_auto_init(), validation._invalidate_middleware]`, `CallbackWrapper.__init__` appends
+`self.callbacks` and `ControlWrapper.__init__` — which continues after it (MRO of `Cache`) — appends
+`_is_disable_middleware`. -/
+def defaultMws : List Mw := [.autoInit, .invalidate, .callbacks, .disable]
+
+/-- the chain `for middleware in mws: call = partial(middleware, call, ...)` builds, OUTERMOST first -/
+def chainOf (mws : List Mw) : List Mw := mws.reverse
+
+/-- anything a backend object (registered backend or transaction wrapper) is asked to do -/
+inductive BCall where
+  /-- one of its command methods -/
+  | cmd (call : Call)
+  /-- `await backend.init()` -/
+  | init (target : Target)
+  deriving DecidableEq, Repr
+
+def BCall.backend : BCall → Nat
+  | .cmd cl => cl.target.backend
+  | .init tg => tg.backend
+
+def BCall.keys : BCall → List (List Nat)
+  | .cmd cl => cl.keys
+  | .init _ => []
+
+/-- ```
+if _INVALIDATE_FURTHER.get() and cmd in RETRIEVE_CMDS:          # {GET, INCR, GET_MANY, GET_MATCH}
+    if "key" in kwargs:        await backend.delete(kwargs["key"]);            return kwargs.get("default")
+    if cmd == GET_MATCH:       await backend.delete_match(kwargs["pattern"]);  return _aiter()
+    if cmd == GET_MANY:        await backend.delete_many(*args);               return ()
+```
+the command issued instead and the answer (`get` and `incr` are called with `key=`; `incr` has no
+`default`, hence `None`) -/
+def invalidateOf : Cmd → Option (Cmd × Res)
+  | .get => some (.delete, .dflt)
+  | .incr => some (.delete, .none_)
+  | .getMatch => some (.deleteMatch, .emptyStream)
+  | .getMany => some (.deleteMany, .many [])
+  | _ => none
+
+/-- One backend command through a chain of middlewares (outermost first) in context `c`.
+`inv`: the context is inside `invalidate_further()`; `ini`: the backends whose `init()` has run;
+`n`: number of backend calls issued so far by the facade command (the index the next one gets).
+Answer shape, the calls issued in order, and the initialised backends afterwards. -/
+def runChain (w : World) (c : Nat) (inv : Bool) (tg : Target) (cmd : Cmd) (keys : List (List Nat)) :
+    List Mw → List Nat → Nat → Res × List BCall × List Nat
+  | [], ini, n => (passShape cmd n keys.length, [.cmd ⟨tg, cmd, keys⟩], ini)
+  | .disable :: rest, ini, n =>
+    if isDisable w c tg.ctl [cmd] then (defaultShape cmd keys.length, [], ini)
+    else runChain w c inv tg cmd keys rest ini n
+  | .autoInit :: rest, ini, n =>
+    if ini.contains tg.backend then runChain w c inv tg cmd keys rest ini n
+    else
+      let r := runChain w c inv tg cmd keys rest (tg.backend :: ini) (n + 1)
+      (r.1, .init tg :: r.2.1, r.2.2)
+  | .invalidate :: rest, ini, n =>
+    match (if inv then invalidateOf cmd else none) with
+    | some (del, res) => (res, [.cmd ⟨tg, del, keys⟩], ini)
+    | none => runChain w c inv tg cmd keys rest ini n
+  | .callbacks :: rest, ini, n => runChain w c inv tg cmd keys rest ini n
+
+/-- `self._with_middlewares(cmd, key)(...)` / `_with_middlewares_for_backend(cmd, backend, default_middlewares)(...)`.
+(`scan` and `get_match` build their chain by hand in commands.py, in the same order since fix
+1c8be30 — finding D22f: they used to wrap `reversed(default_middlewares)`, the disable check innermost.) -/
+def stackCall (w : World) (c : Nat) (inv : Bool) (tg : Target) (cmd : Cmd) (keys : List (List Nat))
+    (ini : List Nat) (n : Nat) : Res × List BCall × List Nat :=
+  runChain w c inv tg cmd keys (chainOf defaultMws) ini n
+
+def slotsOf : Res → List Slot
+  | .many s => s
+  | _ => []
+
+/-- the loop over the per-backend groups of a multi-key command, through the middleware stack -/
+def groupCallsS (w : World) (c : Nat) (inTx inv : Bool) (cmd : Cmd) :
+    List (Nat × List (List Nat)) → List Nat → Nat → List BCall × List (List Slot) × List Nat
+  | [], ini, _ => ([], [], ini)
+  | (b, ks) :: r, ini, n =>
+    let x := stackCall w c inv (targetOf inTx b) cmd ks ini n
+    let y := groupCallsS w c inTx inv cmd r x.2.2 (n + x.2.1.length)
+    (x.2.1 ++ y.1, slotsOf x.1 :: y.2.1, y.2.2)
+
+/-- the loop over all registered backends (`clear`, `get_keys_count`): calls, the indices of the
+calls whose answers are summed, initialised backends -/
+def allBackendsS (w : World) (c : Nat) (inv : Bool) (cmd : Cmd) :
+    List Nat → List Nat → Nat → List BCall × List Nat × List Nat
+  | [], ini, _ => ([], [], ini)
+  | b :: r, ini, n =>
+    let x := stackCall w c inv (.raw b) cmd [] ini n
+    let y := allBackendsS w c inv cmd r x.2.2 (n + x.2.1.length)
+    (x.2.1 ++ y.1, (match x.1 with | .resp i => [i] | _ => []) ++ y.2.1, y.2.2)
+
+/-- the `Command` member a public command is (disabled) under -/
+def FCmd.cmd : FCmd → Cmd
+  | .keyed cmd _ => cmd
+  | .getMany _ => .getMany
+  | .setMany _ => .setMany
+  | .deleteMany _ => .deleteMany
+  | .clear => .clear
+  | .keysCount => .getKeysCount
+
+/-- One public command in context `c` in the full environment: `inv` = the context is inside
+`invalidate_further()`, `ini` = backends already initialised.  `exec` above is the special case
+`inv = false`, every backend initialised (`execS_plain` in `Lemmas/DisableStack.lean`). -/
+def execS (t : Table) (w : World) (c : Nat) (inTx inv : Bool) (ini : List Nat) :
+    FCmd → Option (Res × List BCall × List Nat)
+  | .keyed cmd key =>
+    (t.getBackend key).map fun b => stackCall w c inv (targetOf inTx b) cmd [key] ini 0
+  | .getMany keys =>
+    (groupKeys t.getBackend keys).map fun groups =>
+      let r := groupCallsS w c inTx inv .getMany groups ini 0
+      (.many ((getManyResult groups (fun i => r.2.1.getD i []) keys).map Slot.ofOption), r.1, r.2.2)
+  | .setMany keys =>
+    (groupKeys t.getBackend keys).map fun groups =>
+      let r := groupCallsS w c inTx inv .setMany groups ini 0
+      (.none_, r.1, r.2.2)
+  | .deleteMany keys =>
+    (groupKeys t.getBackend keys).map fun groups =>
+      let r := groupCallsS w c inTx inv .deleteMany groups ini 0
+      (.none_, r.1, r.2.2)
+  | .clear =>
+    let r := allBackendsS w c inv .clear t.backends ini 0
+    some (.none_, r.1, r.2.2)
+  | .keysCount =>
+    let r := allBackendsS w c inv .getKeysCount t.backends ini 0
+    some (.sum r.2.1, r.1, r.2.2)
+
+/-! ### Histories: registration, control and commands interleaved
+
+The routing table is a component of the state: `setup()` may be called at any time, for a new
+prefix or for one that is registered already (the backend is replaced), enabled or disabled. -/
+
+structure Sys where
+  /-- `self._backends` / `self._sorted_prefixes` -/
+  t : Table
+  w : World
+  /-- backends whose `init()` has run (`backend.is_init`) -/
+  inited : List Nat
+  /-- context ↦ value of the ContextVar `_INVALIDATE_FURTHER` -/
+  inv : Nat → Bool
+
+def Sys.fresh : Sys := ⟨Table.empty, World.init true, [], fun _ => false⟩
+
+inductive HOp where
+  /-- `cache.setup(url, prefix=p, disable=d)` run in context `c`; `b` names the backend object it creates:
+  ```
+  backend = backend_class(**params)
+  if disable: backend.disable()            # the context variable of the CURRENT context
+  self._add_backend(backend, middlewares, prefix)
+  ``` -/
+  | setup (c : Nat) (p : List Nat) (b : Nat) (disabled : Bool)
+  /-- `await backend.init()` (what `cache.init()` does for every registered backend) -/
+  | initB (b : Nat)
+  | ctl (op : CtlOp)
+  /-- `with invalidate_further():` entered / left in context `c` (`set(True)` / `set(False)`) -/
+  | invEnter (c : Nat)
+  | invExit (c : Nat)
+  | cmd (c : Nat) (inTx : Bool) (f : FCmd)
+  deriving Repr
+
+inductive HOut where
+  | done
+  | ctl (notConfigured : Bool)
+  /-- `none` = `NotConfiguredError` -/
+  | cmd (r : Option (Res × List BCall))
+  deriving DecidableEq, Repr
+
+def hstep (s : Sys) : HOp → Sys × HOut
+  | .setup c p b d =>
+    ({ s with t := s.t.add p b, w := if d then disableB s.w c b [] else s.w }, .done)
+  | .initB b => ({ s with inited := b :: s.inited }, .done)
+  | .ctl op =>
+    let r := ctlStep s.t s.w op
+    ({ s with
+       w := r.1
+       inv := match op with
+         | .fork p ch => fun x => if x = ch then s.inv p else s.inv x      -- the child copies the context
+         | _ => s.inv }, .ctl r.2)
+  | .invEnter c => ({ s with inv := fun x => if x = c then true else s.inv x }, .done)
+  | .invExit c => ({ s with inv := fun x => if x = c then false else s.inv x }, .done)
+  | .cmd c inTx f =>
+    match execS s.t s.w c inTx (s.inv c) s.inited f with
+    | none => (s, .cmd none)
+    | some r => ({ s with inited := r.2.2 }, .cmd (some (r.1, r.2.1)))
+
+def hrun (s : Sys) (ops : List HOp) : Sys := ops.foldl (fun s op => (hstep s op).1) s
+
+/-- the registrations a history makes, in order -/
+def HOp.setups : List HOp → List (List Nat × Nat)
+  | [] => []
+  | .setup _ p b _ :: r => (p, b) :: HOp.setups r
+  | _ :: r => HOp.setups r
+
+/-- the context whose view of the control state an operation may change (`none`: nobody's) -/
+def HOp.target : HOp → Option Nat
+  | .setup c _ _ d => if d then some c else none
+  | .ctl op => some op.target
+  | _ => none
 
 end CashewsVerif.Disable
